@@ -28,6 +28,7 @@ import (
 	"net/http"
 	"os"
 	"sync"
+	"sync/atomic"
 	"time"
 
 	"golang.org/x/net/websocket"
@@ -70,7 +71,14 @@ type failSink struct {
 	mode  string
 	phase int
 	calls int
+	// set once the phase-1 messages have been logged: a single failure
+	// ("once") that has not happened by then does not happen at all, so the
+	// lost frame always belongs to a phase-1 message (whose frames the
+	// oracle sets aside) and never to a message judged in full
+	disarmed int32
 }
+
+func (f *failSink) disarm() { atomic.StoreInt32(&f.disarmed, 1) }
 
 var errSink = errors.New("injected sink error")
 
@@ -80,7 +88,7 @@ func (f *failSink) Write(p []byte) (int, error) {
 	f.calls++
 	f.mu.Unlock()
 	switch {
-	case f.mode == "once" && i == f.k, f.mode == "ever" && i >= f.k:
+	case f.mode == "once" && i == f.k && atomic.LoadInt32(&f.disarmed) == 0, f.mode == "ever" && i >= f.k:
 		return 0, errSink
 	case f.mode == "short" && i == f.k:
 		f.lockedBuf.Write(p[:len(p)/2])
